@@ -9,7 +9,7 @@ use std::{
     cell::RefCell,
     collections::BTreeSet,
     fs,
-    io::{self, BufWriter},
+    io::{self, BufWriter, Write},
     path::Path,
     sync::Arc,
     time,
@@ -518,6 +518,9 @@ impl Writer {
                 // switch to new merge data file if we exceed the max file size
                 merge_pos += nbytes;
                 if merge_pos > self.ctx.conf.max_file_size {
+                    merge_datafile_writer.flush()?;
+                    merge_datafile_writer.get_ref().sync_all()?;
+                    merge_hintfile_writer.sync()?;
                     merge_fileid += 1;
                     merge_pos = 0;
                     merge_datafile_writer =
@@ -527,6 +530,10 @@ impl Writer {
                     debug!(merge_fileid, "new merge file");
                 }
             }
+            // The merged files are about to be removed, their copies have to be durable first
+            merge_datafile_writer.flush()?;
+            merge_datafile_writer.get_ref().sync_all()?;
+            merge_hintfile_writer.sync()?;
         }
 
         // Remove stale files from system and storage statistics
